@@ -80,6 +80,19 @@ def handle (fn : String) (args : List String) : Option String := do
       let (ns, _) ← takeList String.toNat? rest
       (ns.mapM fun n => (naive (mn == "1") n d.ys).map toString).map (joinWith " ")
     | _ => none
+  | "v" | "u" =>
+    -- V / U statistic curves for unweighted finite samples: `mn k n₁ … n_k`
+    match rest with
+    | mn :: rest =>
+      let (ns, _) ← takeList String.toNat? rest
+      if d.ws.isSome || ns.any (· == 0) then none else
+      let sorted := Opda.Band.sort d.ys
+      let ordered := if mn == "1" then sorted.reverse else sorted
+      let N := d.ys.length
+      some (joinWith " " (ns.map fun n =>
+        let ws : List Rat := if fn == "v" then vWeights (fun x => x ^ n) N else uWeights n N
+        showOptExt (wsum ((ordered.zip ws).filter fun p => p.2 ≠ 0))))
+    | _ => none
   | "moments" =>
     -- finite samples only: `mean`, `variance` attributes (`np.mean/np.var`, or `Σ_{w>0} w·y`, `Σ_{w>0} w·(y-mean)²`)
     let fin ← d.ys.mapM fun y => match y with | .fin v => some v | _ => none
